@@ -165,7 +165,6 @@ func Harness_C09_flow() {
 	}
 }
 
-
 // Harness_C01_trust: the three trust configurations (IdP metadata, certificate fingerprint, pinned
 // certificate) against every signing layout and every KeyInfo layout (the signer's certificate, none,
 // signer+other, other+signer): an assertion is returned only under a signature of the trusted key.
